@@ -5,8 +5,9 @@ import PegVerif.Exec.ErrDriver
 import PegVerif.Model.Ast
 import PegVerif.Model.AstSpec
 import PegVerif.Model.Error
+import PegVerif.Model.Runes
 /-
-  `pegmodel run`: per request `{"id","tree","opts","cases":[{"k","entry","memo","input":[runes]}]}`
+  `pegmodel run`: per request `{"id","tree","opts","cases":[{"k","entry","memo","bytes":[p.Buffer bytes] | "input":[runes]}]}`
   print, for every case, the observation of
     * the MODEL  : `execF` on the program the model generator emits (+ `astOf`, `printTree`,
                    `execute`, `errorString`), i.e. what the real parser should print if the model is
@@ -163,7 +164,11 @@ def runOne (line : String) : String :=
         let k ← c.getObjValAs? String "k"
         let entry ← c.getObjValAs? String "entry"
         let memo := (c.getObjValAs? Bool "memo").toOption.getD true
-        let inp ← c.getObjValAs? (List Nat) "input"
+        -- "bytes": the raw bytes of `p.Buffer`, decoded by the Lean model of Go's `[]rune(string)`;
+        -- "input": already-decoded runes (kept for callers that have no byte form)
+        let inp ← match c.getObjValAs? (List Nat) "bytes" with
+          | .ok bs => pure (runes bs)
+          | .error _ => c.getObjValAs? (List Nat) "input"
         let wantSpec := (c.getObjValAs? Bool "spec").toOption.getD true
         pure (Json.mkObj ([("k", Json.str k), ("model", modelObs ctx entry memo inp)] ++
           (if wantSpec then [("spec", specObs ctx entry inp)] else []))))
